@@ -26,7 +26,8 @@ RULE = ("scenarios {same key x2, same key x3, different keys, two functions with
         "switch probabilities 0.02 / 0.1 / 0.3 and PCT priorities; non-trivial = distinct interleavings (distinct "
         "switch traces) in which at least one preemptive switch happened"
         '; rounds 7-9: three threads with nested calls (waiters for different calls at once), an automatically versioned function whose module is loaded afresh, and a scenario (two dependencies, different arguments per thread) in which every run gets a newly forked process'
-        '; round 13: two calls whose results are partitions; the values served after the threads finished are judged')
+        '; round 13: two calls whose results are partitions; the values served after the threads finished are judged'
+        '; round 16: store kind cold_mem_cfg - the default cluster is built from a configuration dictionary and first used by the threads')
 ASSUMPTIONS = ["yield injection happens at line boundaries where CPython itself may not switch; other CPython builds do",
                "with the 4 KiB budget only the accounting invariant is compared with sequential executions (resident "
                "sets legitimately depend on the interleaving of individually atomic cache operations)",
